@@ -222,6 +222,11 @@ class Interp(seqdom.Interp):
                 return Cat(base.parts, not base.transposed)
             if isinstance(base, RFac):
                 return RFac(base.arg, base.mode, not base.transposed)
+            if isinstance(base, Cut):
+                # (M[r0:r1, c0:c1]).T = M.T[c0:c1, r0:r1]
+                mt = self.attr_hook(base.m, "T", node)
+                if mt is not None and not isinstance(mt, Opq):
+                    return Cut(mt, base.clo, base.chi, base.rlo, base.rhi)
             if isinstance(base, ObjVal):
                 return Opq(f"transpose of {base.show()[:40]}")
         if name == "shape" and isinstance(base, Stk) and not base.transposed and isinstance(base.win, Win):
@@ -287,9 +292,15 @@ class Interp(seqdom.Interp):
                 if what != "k" or st not in (1, -1):
                     return Opq(f"selection `{astq.src(node, 50)}` of a sliding-window view on its {what} axis")
                 if st == -1:
-                    if x[1] is not None or x[2] is not None:
+                    if x[1] is None and x[2] is None:
+                        out = Slide(out.role, out.width, out.lo, out.n, out.order, not out.rev)
+                        continue
+                    # [a:b:-1] takes the starts a, a-1, ..., b+1 (b omitted: down to the first one)
+                    a_ = self.topoly(x[1]) if x[1] is not None else (out.n - 1 if out.n is not None else None)
+                    b_ = self.topoly(x[2]) if x[2] is not None else P.c(-1)
+                    if a_ is None or b_ is None or out.rev:
                         return Opq("reversed partial selection of window starts")
-                    out = Slide(out.role, out.width, out.lo, out.n, out.order, not out.rev)
+                    out = Slide(out.role, out.width, out.lo + b_ + 1, a_ - b_, out.order, True)
                     continue
                 lo = self.topoly(x[1]) if x[1] is not None else P.c(0)
                 hi = self.topoly(x[2]) if x[2] is not None else None
@@ -371,8 +382,23 @@ class Interp(seqdom.Interp):
                 return Opq(f"`{astq.src(node, 50)}`")
         return None
 
+    def slide_rows(self, base, node):
+        """the (block, channel, sample) window view written out block after block: a stack of windows"""
+        if base.n is None:
+            return Opq("window view with an unknown number of starts")
+        if base.order == ("k", "c", "t"):
+            v = self.fresh("w") if hasattr(self, "fresh") else "w0"
+            start = (base.lo + base.n - 1 - P.s(v)) if base.rev else (base.lo + P.s(v))
+            return Stk(v, base.n, Win(base.role, start, start + base.width))
+        if base.order == ("c", "k", "t"):
+            self.errors.append((node, f"`{astq.src(node, 50)}` puts the window view together channel after channel: rows are grouped by channel, not by block row"))
+            return Opq("channel-major flattening of the window view")
+        return Opq(f"window view with axes {''.join(base.order)} written out along its first axis")
+
     def _stack_of(self, a0, axis, node):
         """np.vstack / hstack of a tuple or of a (symbolic) list of blocks"""
+        if isinstance(a0, Slide):
+            return self.slide_rows(a0, node) if axis == 0 else Opq("window view stacked along the columns")
         if isinstance(a0, Tup):
             items = a0.items
         elif isinstance(a0, Sq):
@@ -407,6 +433,8 @@ class Interp(seqdom.Interp):
         return Opq(f"stack `{astq.src(node, 50)}`")
 
     def call_hook(self, fn, args, kw, node, env):
+        if fn in ("tuple", "list", "numpy.array", "numpy.asarray", "numpy.ascontiguousarray") and len(args) == 1 and isinstance(args[0], (Slide, Stk, Cat, Blk4)):
+            return args[0]
         if fn.endswith("sliding_window_view") and args and isinstance(args[0], Rec) and not args[0].transposed:
             w = self.topoly(args[1] if len(args) > 1 else kw.get("window_shape"))
             ax = self.topoly(kw.get("axis") if kw.get("axis") is not None else (args[2] if len(args) > 2 else None)) if (kw.get("axis") is not None or len(args) > 2) else None
@@ -435,10 +463,13 @@ class Interp(seqdom.Interp):
                     return Slide(base.role, base.width, base.lo, base.n, o, base.rev)
                 if name == "reshape" and len(vals) == 2 and all(v is not None for v in vals) and base.n is not None:
                     nch = P.s(SYM[base.role][0])
+                    # one dimension may be left to numpy (-1)
+                    if vals[0] == P.c(-1) and vals[1] == base.width:
+                        vals = [base.n * nch, vals[1]]
+                    elif vals[1] == P.c(-1) and vals[0] == base.n * nch:
+                        vals = [vals[0], base.width]
                     if base.order == ("k", "c", "t") and vals[0] == base.n * nch and vals[1] == base.width:
-                        v = self.fresh("w") if hasattr(self, "fresh") else "w0"
-                        start = (base.lo + base.n - 1 - P.s(v)) if base.rev else (base.lo + P.s(v))
-                        return Stk(v, base.n, Win(base.role, start, start + base.width))
+                        return self.slide_rows(base, node)
                     if base.order == ("c", "k", "t") and vals[0] == base.n * nch:
                         self.errors.append((node, f"`{astq.src(node, 50)}` flattens (channel, block) channel-major: rows are grouped by channel, not by block row"))
                         return Opq("channel-major flattening of the window view")
